@@ -4836,9 +4836,11 @@ impl GraphEngine {
                         }
                     }
 
+                    // Directed edges are only followed from `from` to `to`; undirected
+                    // edges may be followed either way.
                     let neighbor = if edge.from == current {
                         edge.to
-                    } else if edge.to == current {
+                    } else if !edge.directed && edge.to == current {
                         edge.from
                     } else {
                         continue;
